@@ -210,11 +210,11 @@ PROPS = {
         level_text=("Exploration. Bus part (c14_busoom): prior histories of 0-6 operations over three registered clients, an unregistered one and an observer (RequestName with all 8 flag combinations on two contended names, ReleaseName, AddMatch/RemoveMatch from a pool of 6 rules, "
                     "method calls that leave reply slots, replies, broadcast and unicast signals, Hello); then one request of the same kinds handled while allocation k fails, for k = 0,1,2,... until the request completes without the failure firing (typically 40-120 runs per case). "
                     "After each run: the frames at every client must be either the complete modelled effect or nothing but a NoMemory error to the caller; a NoMemory outcome is retried and must then produce the modelled effect; GetNameOwner/NameHasOwner/ListQueuedOwners/ListNames, "
-                    "four probe signals exercising every rule, and the NoReply errors and NameOwnerChanged signals produced by closing every client must agree with the model; no libdbus block or descriptor may remain at shutdown. "
+                    "four probe signals exercising every rule, and the NoReply errors and NameOwnerChanged signals produced by closing every client must agree with the model; no libdbus block or descriptor may remain at shutdown. A further phase takes the injected request from the driver's read-only methods (GetNameOwner, NameHasOwner, ListQueuedOwners, GetConnectionUnixUser/Credentials/UnixProcessID, ListNames, ListActivatableNames, GetId, Introspect, Properties.GetAll) and ReloadConfig with an unchanged configuration file, where nothing may change under either outcome. "
                     "Library part (c14_liboom): generated valid messages (any field order, unknown fields, either byte order) under header edits (six string setters incl. clearing and 40-240 byte values, set_reply_serial), top-level appends, container appends, dbus_message_copy, marshal, demarshal; "
                     "match-rule texts from 22 clause shapes (valid and invalid, up to 1.1 kB); bus configuration files (limits, 1-3 policy blocks of 5 contexts with 15 rule shapes, servicedir/includedir/user/fork/apparmor/syslog elements, unknown elements). Each operation runs once without injection (reference) and once per failing allocation index; "
                     "a reported failure must leave the message marshalling to the bytes it had before and the repeated operation must succeed, a reported success must equal the reference, demarshal/parse must say NoMemory or the reference verdict, and the block count must return to its level."),
-        level_note="Failures are injected into dbus_malloc/realloc and the memory pools (what libdbus' own countdown covers), not into the kernel or libc (socket buffers, getpwuid); pairs of failures are explored for a generated gap per case, not for all pairs.",
+        level_note="Failures are injected into dbus_malloc/realloc and the memory pools (what libdbus' own countdown covers), not into the kernel or libc (socket buffers, getpwuid); pairs of failures are explored for a generated gap per case, not for all pairs; ReloadConfig is injected only with an unchanged configuration file (a half-applied *changed* configuration is not explored).",
         rule=("case = (history, request) decoded from fuzzer input, enumerated over every failing allocation index. Non-trivial = >=2 prior operations, the countdown fired in >=1 run and >=1 run ended in NoMemory; distinct = FNV-1a of the normalised history and request."),
         phases=[P(kind="enum", bin="c14_busoom_enum", nopool_odd=True, quick=["420", "96"], thorough=["6000", "96"], shards_quick=14, shards_thorough=16),
                 # pairs of failures: the second one a generated gap (0-11 allocations) after the first (hook H3)
